@@ -12,6 +12,15 @@ package main
 //	noClientAuth    every value assigned to `.NoClientAuth` in pkg/ssh
 //	alwaysPassRefs  every file outside pkg/auth that mentions auth.AlwaysPassVerifier
 //	putConnFiles    every non-test file that calls `.PutConn(` (who feeds internal listeners)
+//	sshListenerRefs every mention of the field sshTunnelListener in server/*.go, as the source text of the
+//	                innermost enclosing call / comparison / composite-literal entry (who gets hold of the listener
+//	                that is handled with internal = true)
+//	gwListenerUses  every mention of peerServerListener in pkg/ssh (what the gateway does with that listener)
+//	gwPutConns      the PutConn calls of pkg/ssh and pkg/virtual with their source text
+//	gwRunCalls      TunnelServer.Run: the calls ssh.NewServerConn, virtual.NewClient, …PutConn in source order
+//	                (the handshake comes first) and the statement that follows the handshake
+//	pubkeyCallbackSrc  NewGateway's PublicKeyCallback: the authorized_keys lookup and every return with the
+//	                condition of the innermost `if` around it
 //
 // Fails ("BROKEN TIE") when an anchor is missing.
 
@@ -45,7 +54,25 @@ func genAuthGateFacts(repo, out string) error {
 	type pair struct{ a, b string }
 	var internalCalls, aapWrites []pair
 	var aapReads, noClientAuth, alwaysPassRefs, putConn []string
+	var sshListenerRefs, gwListenerUses, gwRunCalls []string
+	var gwPutConns, pubkeyCallback []pair
 	bypass := []string{}
+
+	// source text of the innermost enclosing call / binary expression / key-value / field of the node on top
+	context := func(stack []ast.Node) string {
+		for i := len(stack) - 2; i >= 0; i-- {
+			switch n := stack[i].(type) {
+			case *ast.CallExpr:
+				// x.f.Close(): the selector is the callee itself, the call is the context
+				return agSrc(fset, n)
+			case *ast.Field:
+				return "declared " + agSrc(fset, n.Type)
+			case *ast.BinaryExpr, *ast.KeyValueExpr, *ast.AssignStmt:
+				return agSrc(fset, n)
+			}
+		}
+		return "?"
+	}
 
 	for _, top := range []string{"client", "cmd", "pkg", "server"} {
 		err := filepath.Walk(filepath.Join(repo, top), func(path string, fi os.FileInfo, err error) error {
@@ -62,7 +89,22 @@ func genAuthGateFacts(repo, out string) error {
 				return err
 			}
 			written := map[ast.Node]bool{}
+			var stack []ast.Node
 			ast.Inspect(f, func(n ast.Node) bool {
+				if n == nil {
+					stack = stack[:len(stack)-1]
+					return true
+				}
+				stack = append(stack, n)
+				if id, ok := n.(*ast.Ident); ok {
+					// covers selectors (x.sshTunnelListener), composite-literal keys and the field declaration
+					if id.Name == "sshTunnelListener" && strings.HasPrefix(rel, "server/") {
+						sshListenerRefs = append(sshListenerRefs, context(stack))
+					}
+					if id.Name == "peerServerListener" && strings.HasPrefix(rel, "pkg/ssh/") {
+						gwListenerUses = append(gwListenerUses, context(stack))
+					}
+				}
 				switch n := n.(type) {
 				case *ast.KeyValueExpr:
 					if id, ok := n.Key.(*ast.Ident); ok && id.Name == "AlwaysAuthPass" {
@@ -93,6 +135,9 @@ func genAuthGateFacts(repo, out string) error {
 					if sel, ok := n.Fun.(*ast.SelectorExpr); ok {
 						if sel.Sel.Name == "PutConn" {
 							putConn = append(putConn, rel)
+							if strings.HasPrefix(rel, "pkg/ssh/") || strings.HasPrefix(rel, "pkg/virtual/") {
+								gwPutConns = append(gwPutConns, pair{rel, agSrc(fset, n)})
+							}
 						}
 						if strings.HasPrefix(rel, "server/") && len(n.Args) > 0 {
 							last := agSrc(fset, n.Args[len(n.Args)-1])
@@ -105,6 +150,65 @@ func genAuthGateFacts(repo, out string) error {
 						}
 					}
 				case *ast.FuncDecl:
+					if rel == "pkg/ssh/server.go" && n.Name.Name == "Run" && n.Body != nil {
+						for i, st := range n.Body.List {
+							if as, ok := st.(*ast.AssignStmt); ok && len(as.Rhs) == 1 &&
+								strings.HasPrefix(agSrc(fset, as.Rhs[0]), "ssh.NewServerConn(") && i+1 < len(n.Body.List) {
+								gwRunCalls = append(gwRunCalls, "after handshake: "+agSrc(fset, n.Body.List[i+1]))
+							}
+						}
+						ast.Inspect(n.Body, func(m ast.Node) bool {
+							if c, ok := m.(*ast.CallExpr); ok {
+								fn := agSrc(fset, c.Fun)
+								if fn == "ssh.NewServerConn" || fn == "virtual.NewClient" || strings.HasSuffix(fn, ".PutConn") {
+									gwRunCalls = append(gwRunCalls, fn)
+								}
+							}
+							return true
+						})
+					}
+					if rel == "pkg/ssh/gateway.go" && n.Name.Name == "NewGateway" && n.Body != nil {
+						ast.Inspect(n.Body, func(m ast.Node) bool {
+							as, ok := m.(*ast.AssignStmt)
+							if !ok || len(as.Lhs) != 1 || len(as.Rhs) != 1 || agSrc(fset, as.Lhs[0]) != "sshConfig.PublicKeyCallback" {
+								return true
+							}
+							fl, ok := as.Rhs[0].(*ast.FuncLit)
+							if !ok {
+								pubkeyCallback = append(pubkeyCallback, pair{"not a function literal", agSrc(fset, as.Rhs[0])})
+								return false
+							}
+							var walk func(list []ast.Stmt, cond string)
+							walk = func(list []ast.Stmt, cond string) {
+								for _, st := range list {
+									switch st := st.(type) {
+									case *ast.ReturnStmt:
+										var rs []string
+										for _, r := range st.Results {
+											x := agSrc(fset, r)
+											if strings.HasPrefix(x, "fmt.Errorf(") {
+												x = "fmt.Errorf(…)"
+											}
+											rs = append(rs, x)
+										}
+										pubkeyCallback = append(pubkeyCallback, pair{"return if " + cond, strings.Join(rs, ", ")})
+									case *ast.IfStmt:
+										walk(st.Body.List, agSrc(fset, st.Cond))
+										if st.Else != nil {
+											pubkeyCallback = append(pubkeyCallback, pair{"else", agSrc(fset, st.Else)})
+										}
+									case *ast.AssignStmt:
+										pubkeyCallback = append(pubkeyCallback, pair{"assign", agSrc(fset, st)})
+									case *ast.ExprStmt:
+									default:
+										pubkeyCallback = append(pubkeyCallback, pair{"stmt", agSrc(fset, st)})
+									}
+								}
+							}
+							walk(fl.Body.List, "")
+							return false
+						})
+					}
 					if rel == "server/service.go" && n.Name.Name == "RegisterControl" && n.Body != nil {
 						ast.Inspect(n.Body, func(m ast.Node) bool {
 							ifs, ok := m.(*ast.IfStmt)
@@ -132,6 +236,10 @@ func genAuthGateFacts(repo, out string) error {
 	if len(bypass) != 1 {
 		return fmt.Errorf("server/service.go RegisterControl: expected exactly one `if … { authVerifier = auth.AlwaysPassVerifier }`, found %d", len(bypass))
 	}
+	if len(sshListenerRefs) == 0 || len(gwListenerUses) == 0 || len(gwRunCalls) == 0 || len(pubkeyCallback) == 0 {
+		return fmt.Errorf("ssh gateway anchors missing: sshTunnelListener refs %d, peerServerListener uses %d, TunnelServer.Run calls %d, PublicKeyCallback %d",
+			len(sshListenerRefs), len(gwListenerUses), len(gwRunCalls), len(pubkeyCallback))
+	}
 	if len(internalCalls) == 0 {
 		return fmt.Errorf("no HandleListener/handleConnection/RegisterControl calls found in server/")
 	}
@@ -145,6 +253,7 @@ func genAuthGateFacts(repo, out string) error {
 	}
 	sortPairs(internalCalls)
 	sortPairs(aapWrites)
+	sortPairs(gwPutConns)
 	uniq := func(xs []string) []string {
 		sort.Strings(xs)
 		var o []string
@@ -185,6 +294,11 @@ func genAuthGateFacts(repo, out string) error {
 	ws("noClientAuth", uniq(noClientAuth))
 	ws("alwaysPassRefs", uniq(alwaysPassRefs))
 	ws("putConnFiles", uniq(putConn))
+	ws("sshListenerRefs", uniq(sshListenerRefs))
+	ws("gwListenerUses", uniq(gwListenerUses))
+	wp("gwPutConns", gwPutConns)
+	ws("gwRunCalls", gwRunCalls)
+	wp("pubkeyCallbackSrc", pubkeyCallback)
 	b.WriteString("end Frp.Gen.AuthGateFacts\n")
 	return os.WriteFile(filepath.Join(out, "AuthGateFacts.lean"), []byte(b.String()), 0o644)
 }
